@@ -23,7 +23,7 @@ VARIABLES w, last
 vars == <<w, last>>
 
 Cfg == [comps |-> Comps, rels |-> Rels, sized |-> Sized, nres |-> 1, totalBits |-> 256,
-        lst |-> [on |-> TRUE, S |-> 63, C |-> {}, hasC |-> FALSE], isDispatch |-> FALSE, subs |-> <<>>]
+        lst |-> [on |-> TRUE, S |-> 63, C |-> {}, hasC |-> FALSE], isDispatch |-> FALSE, subs |-> <<>>, capInc |-> 1, relCapInc |-> 0]
 
 F(k, ids) == [k |-> k, ids |-> ids, exc |-> <<>>, tgt |-> Zero, reg |-> -1, subs |-> <<>>]
 RelF(inner, t) == [k |-> "rel", ids |-> <<>>, exc |-> <<>>, tgt |-> t, reg |-> -1, subs |-> <<inner>>]
